@@ -385,7 +385,8 @@ func isNullableTypeNamed(t *ast.Type, typename string) bool {
 }
 
 func isNodeField(f *ast.FieldDefinition) bool {
-	if common.IsNodeInterfaceName(f.Name) || len(f.Arguments) != 1 {
+	// only the Relay entry point itself, not every field of its shape (lookup(id: ID!): Node)
+	if f.Name != common.NodeFieldName || len(f.Arguments) != 1 {
 		return false
 	}
 	arg := f.Arguments[0]
